@@ -153,11 +153,25 @@ pub struct Skel {
     pub leaves: usize,
 }
 
-pub fn exact_skeleton<'a, I: IntoIterator<Item = RefNode<'a>>>(it: I) -> Skel {
+pub fn exact_skeleton<'a, I: IntoIterator<Item = RefNode<'a>>>(it: I) -> Skel
+where
+    I::IntoIter: IntoEvent<'a>,
+{
+    // Taken from the event view, so that the *nesting* is part of the skeleton: two trees with the same pre-order
+    // sequence of kinds and leaves but another parent for some node (a comment inside the directive in front of it
+    // instead of behind it) differ.  WhiteSpace carries its variant, which no RefNode kind shows (Space and Newline
+    // both hold a bare Locate).
     let mut f = Fnv::new();
     let (mut n, mut l) = (0, 0);
     let mut name = String::new();
-    for x in it {
+    for ev in it.into_iter().into_event() {
+        let x = match ev {
+            NodeEvent::Leave(_) => {
+                f.u64(0x3c);
+                continue;
+            }
+            NodeEvent::Enter(x) => x,
+        };
         n += 1;
         match x {
             RefNode::Locate(loc) => {
@@ -172,6 +186,14 @@ pub fn exact_skeleton<'a, I: IntoIterator<Item = RefNode<'a>>>(it: I) -> Skel {
                 name.clear();
                 let _ = write!(name, "{}", y);
                 f.str(&name);
+                if let RefNode::WhiteSpace(w) = y {
+                    f.u64(match w {
+                        WhiteSpace::Space(_) => 1,
+                        WhiteSpace::Newline(_) => 2,
+                        WhiteSpace::Comment(_) => 3,
+                        WhiteSpace::CompilerDirective(_) => 4,
+                    });
+                }
             }
         }
     }
